@@ -100,9 +100,9 @@ theorem cutAt_wf (sc : Nat) (s : Sketch) (h : s.wf) : (cutAt sc s).wf := by
   unfold cutAt
   cases ht : s.tracked
   · simp only [Bool.false_eq_true, if_false]
-    exact ⟨hk, by simp [ht], fun _ => hun ht⟩
+    exact ⟨hk, by simp, fun _ => hun ht⟩
   · simp only [if_true]
-    refine ⟨hk, fun _ => ⟨by simp, ?_⟩, by simp [ht]⟩
+    refine ⟨hk, fun _ => ⟨by simp, ?_⟩, by simp⟩
     intro a ha
     obtain ⟨p, hp, rfl⟩ := List.mem_map.1 ha
     exact (htr ht).2 p.2 (List.of_mem_zip (List.mem_filter.1 hp).1).2
